@@ -10,7 +10,7 @@ import (
 )
 
 func levelReplay(w *World, o *Obligation, q *Query, _ map[string]string) (string, string) {
-	if q.Fn == nil || q.Fn.Pkg == nil || o.Kind != "post" {
+	if q.Fn == nil || q.Fn.Pkg == nil || o.Kind != "post" || q.Status != "sat" {
 		return "", ""
 	}
 	isCap := strings.Contains(o.Text, "$cap")
